@@ -250,6 +250,7 @@ impl<'a> StateMachine<'a> {
 
     /// Emit unchanged any line that delta does not handle.
     pub fn emit_line_unchanged(&mut self) -> std::io::Result<bool> {
+        self.painter.paint_buffered_minus_and_plus_lines();
         self.painter.emit()?;
         writeln!(
             self.painter.writer,
